@@ -94,12 +94,27 @@ class MapExprs(FunctionContract):
     prop = PROP
     relpath = LANG
 
-    def __init__(self, qualname, super_post, post, variant=""):
+    def __init__(self, qualname, super_post, post, variant="", identity=False):
         self.qualname = qualname
         self.super_post = super_post      # (s, s1) -> [formulas] known about super()'s result s1
         self.post = post                  # (s, r) -> [(name, formula)]
-        self.variant_name = variant
+        self.variant_name = variant + (",identity-mapper" if identity else "")
         self.s = z3.Const("self_stmt", S8)
+        self.identity = identity
+        if identity:
+            self.prop = "C08"
+
+    @property
+    def axioms(self):
+        """C08's clause is about the identity mapper only: with it a field that is not mapped at all is unchanged too"""
+        if not self.identity:
+            return ()
+        e = z3.Const("e", Expr)
+        n = z3.Const("n", VarName)
+        l = z3.Const("l", LL)
+        a = z3.Const("a", z3.ArraySort(IntSort(), VarName))
+        return (ForAll([e], M(e) == e), ForAll([n], mapped_name(n) == n), ForAll([n], e_name(VARE(n)) == n),
+                ForAll([l], MAPL(l) == l), ForAll([a], MAPPED_ASG(a) == a))
 
     def params(self, ctx):
         ctx.env["self"] = STMT8.wrap(self.s)
@@ -535,7 +550,7 @@ def chain(cls):
     return out
 
 
-def chain_units(cls, required, extra_post=None):
+def chain_units(cls, required, extra_post=None, identity=False):
     """one unit per map_expressions along the chain of `cls`; super() of each enters by the composed
     post of the rest of the chain; the top one must map every field in `required`"""
     ch = chain(cls)
@@ -560,9 +575,10 @@ def chain_units(cls, required, extra_post=None):
             return out
         if c == "StatementBase":
             us.append(FunctionUnit(MapExprs("StatementBase.map_expressions", lambda s, s1: [], lambda s, r: [("returns-self", r == s)],
-                                            variant="in-chain-of-" + cls)))
+                                            variant="in-chain-of-" + cls, identity=identity)))
         else:
-            us.append(FunctionUnit(MapExprs(c + ".map_expressions", super_post, post, variant="in-chain-of-" + cls)))
+            us.append(FunctionUnit(MapExprs(c + ".map_expressions", super_post, post, variant="in-chain-of-" + cls,
+                                            identity=identity)))
     return us
 
 
@@ -577,15 +593,17 @@ def call_post(s, r):
             ("assignees-renamed", f_asg(r) == If(include_lhs, MAPPED_ASG(f_asg(s)), f_asg(s)))]
 
 
-def map_expressions_units():
-    """the map_expressions chains and the identity lemma (C16; C08's last sentence)"""
+def map_expressions_units(identity=False):
+    """the map_expressions chains and the identity lemma (C16; with identity=True: C08's last sentence, where the
+    mapper is the identity, so that a change which merely stops mapping a field - a C16 matter - is not reported as a
+    violation of C08)"""
     us = []
     # renaming must reach guard, lhs, rhs, loop identifiers and bounds of an Assign ...
-    us += chain_units("Assign", ["condition", "lhs", "rhs", "loops"])
+    us += chain_units("Assign", ["condition", "lhs", "rhs", "loops"], identity=identity)
     # ... guard, yielded value and time of a YieldState ...
-    us += chain_units("YieldState", ["condition", "expression", "time"])
+    us += chain_units("YieldState", ["condition", "expression", "time"], identity=identity)
     # ... guard, function, arguments and assignees of an AssignFunctionCall
-    us += chain_units("AssignFunctionCall", ["condition"], extra_post=call_post)
+    us += chain_units("AssignFunctionCall", ["condition"], extra_post=call_post, identity=identity)
     us += [LemmaUnit("lemma:identity-map(C08)", identity_lemma)]
     return us
 
